@@ -23,7 +23,7 @@ for p in ALL:
     })
 m = {
     'version': 1,
-    'setup_cmd': 'cd lean && /venv/bin/python ../translator/pynum2lean.py /repo && lake build Plotink driver',
+    'setup_cmd': 'tools/regen.py /repo && cd lean && lake build Plotink driver',
     'hooks': {'guard': 'PLOTINK_VERIF', 'enable': 'no source hooks are needed: the harness injects fake ports/stubs through module attributes; PLOTINK_VERIF=1 is exported by ./check for completeness',
               'baseline_off_cmd': 'cd /repo && /venv/bin/python -m pytest -ra -q -p no:cacheprovider --timeout=900 --continue-on-collection-errors',
               'source_commits': [], 'add_only': True},
